@@ -84,6 +84,27 @@ def rule_sync(ctx):
                    f'UGenScalar.{name} defaults {sdv} differ from ChannelList.{name} defaults {dfl}',
                    us.methods[name].node, us.module)
     ctx.require(n >= 28, 'C03.sync', f'only {n} forwarding methods found in ChannelList')
+    # methods that do not forward through _multichannel_perform must still zip: a comprehension over the channels alone whose
+    # element uses a parameter hands the whole (possibly list) argument to every channel - a cross product, not wrap-and-zip
+    for name, f in sorted(cl.methods.items()):
+        params = set(f.params[1:])
+        if not params or name.startswith('_') and name not in ('__iadd__',):
+            continue
+        for comp in [x for x in walk_local(f.node) if isinstance(x, (ast.GeneratorExp, ast.ListComp))]:
+            g0 = comp.generators[0]
+            if len(comp.generators) == 1 and norm(g0.iter) == 'self':
+                used = sorted(params & set(U.names_in(comp.elt)))
+                ctx.ob('C03.sync', f'{cl.module.name}:ChannelList.{name}:zips-arguments', not used,
+                       f'ChannelList.{name} iterates its channels alone and hands the whole argument(s) {used} to each channel: a list '
+                       f'argument yields a nested cross product instead of being zipped (wrap-and-zip law)', comp, cl.module)
+    md = cl.methods['madd']
+    ctx.ob('C03.sync', f'{cl.module.name}:ChannelList.madd:zip', 'MulAdd.new(*i) for i in utl.flop([self, mul, add])' in full(md.node),
+           'madd builds one MulAdd per row of flop([channels, mul, add])', md.node, cl.module)
+    # list's in-place concatenation must not shadow the lifted operator: `b += x` is `b + x`
+    ia = cl.methods.get('__iadd__') or repo.resolve_method(cl, '__iadd__')
+    ok = ia is not None and full(ia.node).endswith(f'return self + {ia.params[1]}')
+    ctx.ob('C03.sync', f'{cl.module.name}:ChannelList.__iadd__', ok,
+           'ChannelList inherits list.__iadd__ (extend) unless it overrides it; += must add channel by channel like +', cl.node, cl.module)
     # _multichannel_perform: zips with flop, calls the selector on element 0 with the rest
     f = cl.methods['_multichannel_perform']
     src = full(f.node)
@@ -260,6 +281,10 @@ def run(ctx):
 
 
 MUTANTS = [
+    dict(rule='C03.sync', name='(fix reverted) madd hands the whole mul/add lists to every channel', file='sc3/synth/ugen.py',
+         old="        return type(self)(\n            MulAdd.new(*i) for i in utl.flop([self, mul, add]))", new="        return type(self)(MulAdd.new(i, mul, add) for i in self)"),
+    dict(rule='C03.sync', name='(fix reverted) ChannelList += extends the list', file='sc3/synth/ugen.py',
+         old="    def __iadd__(self, other):  # list.__iadd__ extends the list.\n        return self + other\n", new=""),
     dict(rule='C03.sync', name='default drift in UGen.lag', file='sc3/synth/ugen.py',
          old="    def lag(self, time=0.1):\n        selector = flr.Lag.", new="    def lag(self, time=0.2):\n        selector = flr.Lag."),
     dict(rule='C03.sync', name='selector string misspelt', file='sc3/synth/ugen.py',
